@@ -56,6 +56,9 @@ type Explorer struct {
 	Verbose      bool
 	curHarness   string
 	MaxViol      int
+	Fallbacks    []string
+	FallbackTimeoutMs int
+	FallbackUsed map[string]int
 }
 
 func Load(repo string, overlay map[string][]byte, patterns []string, tags string) (*ssa.Program, []*ssa.Package, []*packages.Package, error) {
@@ -101,9 +104,12 @@ func NewExplorer(prog *ssa.Program, cfg Config) *Explorer {
 	ex.Encoded = map[string]bool{}
 	ex.Workers = 16
 	ex.SolverName = "z3"
-	ex.TimeoutMs = 60000
+	ex.TimeoutMs = 8000
 	ex.MaxPaths = 200000
 	ex.MaxViol = 64
+	ex.Fallbacks = []string{"cvc5-iand", "cvc5", "z3-new"}
+	ex.FallbackTimeoutMs = 60000
+	ex.FallbackUsed = map[string]int{}
 	return ex
 }
 
@@ -146,6 +152,7 @@ func (ex *Explorer) done() {
 	ex.mu.Unlock()
 }
 
+func (ex *Explorer) noteFallback(n string) { ex.mu.Lock(); ex.FallbackUsed[n]++; ex.mu.Unlock() }
 func (ex *Explorer) noteUnknown() { ex.mu.Lock(); ex.Unknowns++; ex.mu.Unlock() }
 func (ex *Explorer) noteDisagree() { ex.mu.Lock(); ex.Disagree++; ex.mu.Unlock() }
 func (ex *Explorer) noteUnwind(s string) { ex.mu.Lock(); ex.Unwinds[s]++; ex.mu.Unlock() }
@@ -243,8 +250,16 @@ func (ex *Explorer) RunHarness(h *ssa.Function, name string) {
 				return
 			}
 			in.solver = s
+			if d := os.Getenv("SYMGO_DUMP"); d != "" {
+				os.MkdirAll(d, 0o755)
+				if f, err := os.Create(filepath.Join(d, fmt.Sprintf("%s-w%d.smt2", name, wid))); err == nil {
+					s.Log = f
+					defer f.Close()
+				}
+			}
 			defer func() {
 				s.Close()
+				in.closeFallbacks()
 				if x, ok := xsolvers.Load(in); ok {
 					x.(*Solver).Close()
 					xsolvers.Delete(in)
